@@ -10,6 +10,7 @@ def run(ctx):
     batch.check_installed(ctx)
     batch.blackbox_stress(ctx)
     batch.check_installed_prewrapped(ctx)
+    batch.blackbox_copies(ctx)
     if not ctx.quick:
         batch.stress_free_running(ctx)
 
